@@ -171,6 +171,17 @@ func (d *dumper) expr(e ast.Expr) string {
 		}
 		return fmt.Sprintf("(.call \"slice\" [%s, %s, %s])", d.expr(x.X), lo, hi)
 	case *ast.CompositeLit:
+		// `T{}`: the zero value of a struct type (time.Time's zero instant is the number the model uses for it)
+		if len(x.Elts) == 0 {
+			if t := d.p.TypesInfo.TypeOf(x); t != nil {
+				if t.String() == "time.Time" {
+					return "(.int (-62135596800000000000))"
+				}
+				if _, ok := t.Underlying().(*types.Struct); ok {
+					return "(.call \"mkobj\" [])"
+				}
+			}
+		}
 		if t := d.p.TypesInfo.TypeOf(x); t != nil {
 			if _, ok := t.Underlying().(*types.Slice); ok {
 				keyed := false
